@@ -40,10 +40,10 @@ def main(tier, replay=None):
                         "SC interleavings; TLC, SANY, gcc -fsanitize=thread instrumentation, /verif/rt trusted"]
     cfgs = CONFIGS["q"] + (CONFIGS["t"] if tier == "thorough" else [])
     run_family(run, exe, "Counter", "C10", cfgs, lambda c: dict(V0=c.get("V0", 0), MaxNow=c.get("MaxNow", 0)),
-               {"NeverNegative", "WaitersOnlyIfNonZero", "QueuedAreWaiting", "NoStuck"}, {"O-lin", "O-ret", "O-prog"})
+               {"NeverNegative", "WaitersOnlyIfNonZero", "QueuedAreWaiting", "NoStuck"}, {"O-lin", "O-ret", "O-prog", "O-mem"})
     # integration: the same programs with the real mu.c underneath, random schedules, oracles only
     exer = build("h_l2r")
-    random_runs(run, exer, "Counter", cfgs, 300 if tier == "quick" else 60000, "C10", {"O-lin", "O-ret", "O-prog"})
+    random_runs(run, exer, "Counter", cfgs, 300 if tier == "quick" else 60000, "C10", {"O-lin", "O-ret", "O-prog", "O-mem"})
     # code -> spec: recorded executions of the same programs validated against CounterTrace.tla
     trace_validate(run, exe, "Counter", [c for c in cfgs if not c[1].get("_sim")], lambda c: dict(V0=c.get("V0", 0), MaxNow=c.get("MaxNow", 0)),
                    ["NeverNegative", "WaitersOnlyIfNonZero", "QueuedAreWaiting", "NoUseAfterFree"], "C10")
